@@ -35,6 +35,12 @@ Strata added by the coverage audit (all judged by the same oracle):
                   in the command phase, inside a transaction, between transactions and directly behind an
                   end-of-data line; the session goes on in clear text and every pipelined byte behind the refused
                   command must be handled as in the stop-and-wait run.
+  auth            servers with AUTH enabled (EXTERNAL, the mechanism usable in clear text whose challenge is
+                  deterministic, plus PLAIN which is refused as insecure) and streams with AUTH exchanges: initial
+                  response given, challenge then response, "=" / cancelled with "*" / bad base64 (initial and as
+                  response), insecure and unknown mechanism, lower case, a second AUTH after success, AUTH inside a
+                  transaction -- before and between transactions and directly behind a message.  In the
+                  stop-and-wait reference the response line is its own unit (sent after the 334).
   concurrent      2..3 sessions (own Server, own handler object, own socket) run as greenlets at the same time:
                   a recv() with no data ready switches back to the feeder, which hands the next segment to a
                   (seeded) session of its choice, so the sessions interleave segment by segment, each under its own
@@ -76,7 +82,9 @@ RULE = ('case = one client byte stream (EHLO|HELO, 1-3 transactions MAIL/RCPT+/D
         'Audit strata: SIZE limit swept over 1..wire+2 for short bodies (cuts at the limit byte, all cut pairs over '
         'the body); hostile command lines before / inside / directly behind a transaction; stream ending inside a '
         'line; handler closing the session; body > 4096 bytes; servers offering STARTTLS with refused STARTTLS '
-        'commands (argument / before EHLO / handler verdict 454, 554, 421) at every position; 2-3 concurrent sessions interleaved segment by '
+        'commands (argument / before EHLO / handler verdict 454, 554, 421) at every position; servers with AUTH '
+        'enabled and AUTH exchanges (initial response, challenge+response, cancel, bad base64, refused mechanisms) '
+        'before / between transactions; 2-3 concurrent sessions interleaved segment by '
         'segment (designed pairs/triples x per-session segmentations x seeded / round-robin / nested feeding '
         'orders), each compared with its own stop-and-wait reference. '
         'Each case = 1 reference run + every segmentation listed in the module docstring (each one evaluation). '
@@ -98,6 +106,7 @@ REQUIRED_HITS = ['reference-run', 'replies-compared', 'trace-compared', 'ref-mes
                  'ref-session-closed-by-handler-exception', 'ref-unit-larger-than-recv-size',
                  'ref-starttls-refused/argument', 'ref-starttls-refused/before-ehlo',
                  'ref-starttls-refused/handler-verdict', 'ref-starttls-refused-directly-behind-eod',
+                 'ref-auth-challenge-answered', 'ref-auth-succeeded', 'ref-auth-refused',
                  'conc/session-offering-starttls',
                  'conc/session-compared', 'conc/command-phase-while-other-inside-data-no-limit',
                  'conc/command-phase-while-other-inside-data-with-limit', 'conc/two-sessions-inside-data']
@@ -391,6 +400,46 @@ def starttls_designed():
                    'units': E + S + txn(0, 's', ['r'], 'over-cmds') + S + N + txn(1, 's', ['r'], 'half') + Q}
 
 
+# ---- servers with AUTH enabled ---------------------------------------------------------------------------------
+
+B64USER = b'dXNlcg=='       # "user"
+AUTH_SHAPES = {             # name -> lines of the exchange (the AUTH command, then the client's responses)
+    'initial': [b'AUTH EXTERNAL ' + B64USER],
+    'challenge': [b'AUTH EXTERNAL', B64USER],
+    'lower-challenge': [b'auth external', B64USER],
+    'empty-initial': [b'AUTH EXTERNAL ='],
+    'empty-response': [b'AUTH EXTERNAL', b'='],
+    'cancel': [b'AUTH EXTERNAL', b'*'],
+    'bad-b64-initial': [b'AUTH EXTERNAL !!!notbase64'],
+    'bad-b64-response': [b'AUTH EXTERNAL', b'dXNlcg=x='],
+    'command-as-response': [b'AUTH EXTERNAL', b'NOOP'],
+    'insecure-plain': [b'AUTH PLAIN AGEAYg=='],
+    'unknown-mech': [b'AUTH FOO', B64USER],
+    'no-arg': [b'AUTH'],
+    'twice': [b'AUTH EXTERNAL', B64USER, b'AUTH EXTERNAL', B64USER],
+    'cancel-then-ok': [b'AUTH EXTERNAL', b'*', b'AUTH EXTERNAL ' + B64USER],
+}
+
+
+def auth_designed():
+    E = [['c', b'EHLO c\r\n']]
+    Q = [['c', b'QUIT\r\n']]
+    N = [['c', b'NOOP\r\n']]
+    for name in sorted(AUTH_SHAPES):
+        A = [['c', ln + b'\r\n'] for ln in AUTH_SHAPES[name]]
+        t0, t1 = txn(0, 's', ['r'], 'cmds'), txn(1, 's', ['r'], 'plain')
+        layouts = {
+            'auth-before-txn': E + A + N + t0 + Q,
+            'auth-between-txns': E + t1 + A + t0 + N + Q,                 # directly behind a message
+            'auth-inside-txn': E + t0[:1] + A + t0[1:] + A + N + Q,       # 503, response lines become commands
+            'auth-before-ehlo': A + E + A + N + Q,
+        }
+        for layout, units in sorted(layouts.items()):
+            for limit in ((None, LIMIT) if layout == 'auth-between-txns' else (None,)):
+                yield {'origin': 'auth', 'limit': limit, 'auth': True, 'kinds': ['cmds'],
+                       'layout': layout + ':' + name, 'units': units}
+
+
 # ---- concurrent sessions ----------------------------------------------------------------------------------
 
 NCONC_RANDOM = {'quick': 120, 'thorough': 4000}
@@ -522,6 +571,11 @@ def gen_cases(tier, seed, shard, nshards):
             c.update(rs=7000 + n, nrand=NRANDOM_CUTS)
             yield c
         n += 1
+    for c in auth_designed():
+        if n % nshards == shard:
+            c.update(rs=8000 + n, nrand=NRANDOM_CUTS)
+            yield c
+        n += 1
     for c in concurrent_cases(tier, seed):
         if n % nshards == shard:
             yield c
@@ -543,7 +597,17 @@ def gen_cases(tier, seed, shard, nshards):
                     at += 1
                 for ln in reversed(TLS_LINES[rnd.choice(sorted(TLS_LINES))]):
                     units.insert(at, ['c', ln])
-        yield {'origin': 'random-audit' if audit else 'random', 'limit': limit, 'tls': tls, 'kinds': kinds,
+        auth = None
+        if audit and rnd.random() < 0.3:
+            auth = True
+            for _ in range(rnd.randrange(1, 3)):
+                at = rnd.randrange(1, len(units) + 1)
+                if at < len(units) and units[at][0] == 'b':
+                    at += 1
+                for ln in reversed(AUTH_SHAPES[rnd.choice(sorted(AUTH_SHAPES))]):
+                    units.insert(at, ['c', ln + b'\r\n'])
+        yield {'origin': 'random-audit' if audit else 'random', 'limit': limit, 'tls': tls, 'auth': auth,
+               'kinds': kinds,
                'layout': 'random', 'units': units, 'rs': rnd.randrange(1 << 30), 'nrand': NRANDOM_CUTS}
 
 
@@ -564,6 +628,10 @@ class Handlers(object):
         self.trace = []
         self.sender = ''
         self.tls_verdict = tls_verdict
+
+    def AUTH(self, reply, creds):
+        self._rec('AUTH', reply, type(creds).__name__, getattr(creds, 'authcid', None),
+                  getattr(creds, 'authzid', None))
 
     def STARTTLS(self, reply, extensions):
         # servers with a TLS context always refuse: a handshake never starts in this check
@@ -651,12 +719,14 @@ def shard_cleanup():
     vtls.cleanup()
 
 
-def run_server(sock, limit, tls=None):
+def run_server(sock, limit, tls=None, auth=None):
     h = Handlers(tls)
+    kw = {}
     if tls:
-        srv = Server(sock, h, address=('client.example', 4321), context=tls_context())
-    else:
-        srv = Server(sock, h, address=('client.example', 4321))
+        kw['context'] = tls_context()
+    if auth:
+        kw['auth'] = [b'EXTERNAL', b'PLAIN']
+    srv = Server(sock, h, address=('client.example', 4321), **kw)
     if limit:
         srv.extensions.add('SIZE', limit)
     try:
@@ -671,7 +741,7 @@ def run_server(sock, limit, tls=None):
     return r
 
 
-def run_reference(units, limit, tls=None):
+def run_reference(units, limit, tls=None, auth=None):
     """Stop-and-wait: the next unit is fed only when the server reads and nothing is pending."""
     st = {'i': 0, 'lines': [], 'fed': [], 'as_lines': 0}
 
@@ -698,14 +768,14 @@ def run_reference(units, limit, tls=None):
         ss.feed(seg)
 
     ss = ScriptSocket([], eof=True, on_recv=on_recv)
-    r = run_server(ss, limit, tls)
+    r = run_server(ss, limit, tls, auth)
     r.fed = st['fed']
     return r, st['as_lines'], st['i'] >= len(units) and not st['lines'] and not ss.segments
 
 
-def run_segments(segs, limit, tls=None):
+def run_segments(segs, limit, tls=None, auth=None):
     ss = ScriptSocket(segs, eof=True)
-    r = run_server(ss, limit, tls)
+    r = run_server(ss, limit, tls, auth)
     r.fed = None
     return r
 
@@ -997,8 +1067,8 @@ def run_case(case, R):
 
     # --- reference run (stop-and-wait)
     R.eval()
-    tls = case.get('tls')
-    ref, as_lines, all_fed = run_reference(units, limit, tls)
+    tls, auth = case.get('tls'), case.get('auth')
+    ref, as_lines, all_fed = run_reference(units, limit, tls, auth)
     R.hit('reference-run')
     if any(_toobig(e) for e in ref.trace):
         R.hit('ref-message-too-big')
@@ -1047,6 +1117,16 @@ def run_case(case, R):
         if nh:
             R.hit('ref-starttls-refused/handler-verdict', nh)
             R.observe('starttls-handler-verdict', tls)
+    if auth:
+        codes = reply_codes(ref.replies)
+        n334 = sum(1 for c in codes if c.startswith('334'))
+        if n334:
+            R.hit('ref-auth-challenge-answered', n334)
+        if any(e[0] == 'AUTH' for e in ref.trace):
+            R.hit('ref-auth-succeeded')
+        if any(c[:3] in ('501', '504', '503') for c in codes):
+            R.hit('ref-auth-refused')
+        R.observe('auth-layout', case.get('layout'))
     if open_tail and all_fed:
         R.hit('ref-open-tail')
         if open_body and units[-1][1] in fed + [b''] and ref.end == 'connection-lost':
@@ -1077,7 +1157,7 @@ def run_case(case, R):
                 R.observe('limit-crossing', (where, len(d) - limit if len(d) - limit < 6 else 6, last, first))
     # one tag at most (the most specific audit stratum the stream belongs to), so that one root cause does not
     # fan out into a mechanism per combination
-    extra_tag = ([t for t, on in (('+starttls-refused', n_tls), ('+open-tail', open_tail), ('+hostile-lines', n_hostile),
+    extra_tag = ([t for t, on in (('+auth-enabled', auth), ('+starttls-refused', n_tls), ('+open-tail', open_tail), ('+hostile-lines', n_hostile),
                                   ('+handler-close', ref.end == 'exception:RuntimeError' or
                                    b'\r\n421 4.' in ref.replies)) if on] + [''])[0]
     R.observe('ref-reply-code-sequence', tuple(reply_codes(ref.replies)))
@@ -1099,7 +1179,7 @@ def run_case(case, R):
         R.observe('stream-x-segmentation', (sid, cuts))
         segs = cut(stream, cuts)
         R.eval()
-        var = run_segments(segs, limit, tls)
+        var = run_segments(segs, limit, tls, auth)
         ncmp += 1
         R.hit('replies-compared')
         R.hit('trace-compared')
